@@ -3,6 +3,7 @@ import QR.Spec.Render
 import QR.Proofs.Text
 import QR.Proofs.Pinned
 import QR.Proofs.SourceTieC15
+import QR.Proofs.SourceTieB4
 /-
 C15 - terminal renderings read back to the module matrix.
 -/
@@ -57,6 +58,64 @@ example : Spec.readTty (printTty [[true]] 1) ≠ Spec.readTty (printTty [[false]
   rw [C15_tty [[true]] 1 rfl (by decide), C15_tty [[false]] 1 rfl (by decide)]; decide
 example : Spec.readHalfBlocks false [65, 10] = none := by decide
 example : Spec.readTty [65, 10] = none := by decide
+
+
+/-! ### Source tie, part 2 (T2 plugins `tools/t2_fragments/`): the hand-written Model equals the definitions translated from
+    /repo's current Python AST (`QR.Gen.Code`, regenerated on every run). Restated verbatim from `QR/Proofs/SourceTie*.lean`. -/
+section SourceTieT2
+open QR.Model QR.Gen.Code QR.SourceTieB
+
+/-- `range(-border, modcount + border)` -/
+theorem C15_source_colRange_eq (modcount border : Nat) :
+    pyRange (-(border : Int)) ((modcount : Int) + border) = (List.range (modcount + 2 * border)).map fun (j : Nat) => (j : Int) - border :=
+  QR.SourceTieB.colRange_eq modcount border
+
+/-- `range(-border, modcount + border, 2)` -/
+theorem C15_source_rowRange_eq (modcount border : Nat) :
+    pyRangeStep (-(border : Int)) ((modcount : Int) + border) 2 =
+      (List.range ((modcount + 2 * border + 1) / 2)).map fun (k : Nat) => ((2 * k : Nat) : Int) - border :=
+  QR.SourceTieB.rowRange_eq modcount border
+
+theorem C15_source_printAscii_literals :
+    print_ascii_default_stream = "sys.stdout" ∧ print_ascii_refuse_exc = "OSError" ∧
+    print_ascii_compile_call = "self.make()" ∧ print_ascii_modcount = "self.modules_count" ∧
+    print_ascii_code_bytes = [255, 223, 220, 219] ∧ print_ascii_codec = "cp437" ∧ print_ascii_tail = "out.flush()" :=
+  QR.SourceTieB.printAscii_literals
+
+/-- the four cp437 bytes decode to the model's code points, in the same order -/
+theorem C15_source_asciiCodes_src : print_ascii_code_points = asciiCodes :=
+  QR.SourceTieB.asciiCodes_src
+
+/-- the text of `print_ascii(out, tty, invert)`, for every matrix, size, border and flag combination -/
+theorem C15_source_printAscii_src (M : Mods) (modcount border : Nat) (tty invert : Bool) :
+    printAscii M modcount border tty invert =
+      (let inv := print_ascii_invert tty invert
+       print_ascii_text (getModule M modcount border inv) (print_ascii_codes inv) modcount border tty inv) :=
+  QR.SourceTieB.printAscii_src M modcount border tty invert
+
+/-- `print_ascii` including its tty check -/
+theorem C15_source_printAsciiOut_src (M : Mods) (modcount border : Nat) (tty invert isatty : Bool) :
+    printAsciiOut M modcount border tty invert isatty =
+      if print_ascii_refuse tty isatty then .error .osError else .ok (printAscii M modcount border tty invert) :=
+  QR.SourceTieB.printAsciiOut_src M modcount border tty invert isatty
+
+theorem C15_source_printTty_literals :
+    print_tty_default_stream = "sys.stdout" ∧ print_tty_refuse_exc = "OSError" ∧
+    print_tty_compile_call = "self.make()" ∧ print_tty_modcount = "self.modules_count" ∧ print_tty_tail = "out.flush()" :=
+  QR.SourceTieB.printTty_literals
+
+/-- the text of `print_tty(out)`, for every matrix and size -/
+theorem C15_source_printTty_src (M : Mods) (modcount : Nat) :
+    printTty M modcount = print_tty_text (fun r c => (M.getD r []).getD c false) modcount :=
+  QR.SourceTieB.printTty_src M modcount
+
+/-- `print_tty` including its tty check -/
+theorem C15_source_printTtyOut_src (M : Mods) (modcount : Nat) (isatty : Bool) :
+    printTtyOut M modcount isatty =
+      if print_tty_refuse isatty then .error .osError else .ok (printTty M modcount) :=
+  QR.SourceTieB.printTtyOut_src M modcount isatty
+
+end SourceTieT2
 
 /-- the Python functions this property's model mirrors have, in /repo's current working tree, exactly the normalised
     ASTs the model was written and validated against (fingerprints regenerated by T1 on every run) -/
